@@ -306,6 +306,32 @@ seed("C13", "handler-no-restart", "bad frame does not trigger a camera restart",
 seed("C13", "parse-into-oldest", "raw frame parsed into the oldest ring slot", ["C13.B3"],
      (MP, "\tframe := mp.frameLoop.Current()\n\tif err := mp.parseFrame(rawFrame, frame, mp.motionDetector.start); err != nil {", "\tframe := mp.frameLoop.Oldest()\n\tif err := mp.parseFrame(rawFrame, frame, mp.motionDetector.start); err != nil {"))
 
+CF = "cmd/thermal-recorder/cptvfilerecorder.go"
+# ---- C10
+seed("C10", "rename-before-close", "file renamed to .cptv before the writer is closed", ["C10.D2"],
+     (CF, "\t\tfw.writer.Close()\n\n\t\tfinalName, err := renameTempRecording(fw.writer.Name())", "\t\tfinalName, err := renameTempRecording(fw.writer.Name())\n\t\tfw.writer.Close()"))
+seed("C10", "temp-ext-cptv", "in-progress files already named .cptv", ["C10.D1"],
+     (MAIN, 'cptvTempExt = "cptv.temp"', 'cptvTempExt = "cptv"'))
+seed("C10", "no-startup-cleanup", "start-up clean-up call removed", ["C10.D4"],
+     (MAIN, '\tif err := deleteTempFiles(conf.OutputDir); err != nil {\n\t\treturn err\n\t}\n', ""))
+seed("C10", "stop-without-remove", "Stop() leaves the temporary file behind", ["C10.D3"],
+     (CF, "\t\tfw.writer.Close()\n\t\tos.Remove(fw.writer.Name())\n", "\t\tfw.writer.Close()\n"))
+seed("C10", "cleanup-misses-scratch", "regression of fix d4475b2 (glob without the scratch suffix)", ["C10.D5"],
+     (CF, 'filepath.Join(dir, "*."+cptvTempExt+"*")', 'filepath.Join(dir, "*."+cptvTempExt)'))
+seed("C10", "cleanup-misses-constant-dir", "regression of fix d4475b2 (constant recorder folder not cleaned)", ["C10.D5"],
+     (CF, "[]string{directory, path.Join(directory, constantRecordingsDir)}", "[]string{directory}"))
+seed("C10", "writer-set-before-header", "writer published before the header was written", ["C10.D3"],
+     (CF, "\tif err = writer.WriteHeader(fw.header); err != nil {\n\t\twriter.Close()\n\t\treturn err\n\t}\n\tfw.header.BackgroundFrame = nil\n\tfw.writer = writer", "\tfw.writer = writer\n\tif err = writer.WriteHeader(fw.header); err != nil {\n\t\twriter.Close()\n\t\treturn err\n\t}\n\tfw.header.BackgroundFrame = nil"))
+seed("C10", "stop-keeps-writer-on-rename-error", "writer not cleared when the rename fails", ["C10.D3"],
+     (CF, "\t\tfw.writer = nil\n\n\t\treturn err", "\t\tif err == nil {\n\t\t\tfw.writer = nil\n\t\t}\n\n\t\treturn err"))
+seed("C10", "final-name-keeps-temp", "final name regexp no longer strips .temp", ["C10.D2"],
+     (CF, "regexp.MustCompile(`(.+)\\.temp$`)", "regexp.MustCompile(`(.+)\\.tmp$`)"))
+seed("C10", "no-deferred-stop", "connection handler does not discard the in-progress file", ["C10.D3"],
+     (MAIN, "\tdefer cptvRecorder.Stop()\n", ""))
+seed("C10", "cleanup-after-first-connection", "clean-up runs after the first connection", ["C10.D4"],
+     (MAIN, '\tif err := deleteTempFiles(conf.OutputDir); err != nil {\n\t\treturn err\n\t}\n', ""),
+     (MAIN, "\t\terr = handleConn(conn, conf)\n", "\t\terr = handleConn(conn, conf)\n\t\tdeleteTempFiles(conf.OutputDir)\n"))
+
 here = os.path.dirname(os.path.abspath(__file__))
 for pid, name, d in S:
     os.makedirs(os.path.join(here, pid), exist_ok=True)
